@@ -413,7 +413,21 @@ class DoubleFree:
 
         def kill(w, lhs):
             ent, facts, af = w
-            return (frozenset(x for x in ent if not mentions(x[-2], lhs)), frozenset(x for x in facts if not mentions(x[0], lhs)), af)
+            return (frozenset(x for x in ent if not (mentions(x[-2], lhs) or (x[0] == "alias" and (mentions(x[1], lhs) or mentions(x[2], lhs))))),
+                    frozenset(x for x in facts if not mentions(x[0], lhs)), af)
+
+        def aliases(ent, n):
+            out = {n}
+            ch = True
+            while ch:
+                ch = False
+                for x in ent:
+                    if x[0] == "alias":
+                        if x[1] in out and x[2] not in out:
+                            out.add(x[2]); ch = True
+                        elif x[2] in out and x[1] not in out:
+                            out.add(x[1]); ch = True
+            return out
 
         def failing(op, R, how):
             if how == "ptr":
@@ -429,6 +443,12 @@ class DoubleFree:
                         how = alloc_fallible(prog, f, r.callee)
                         if how is not None:
                             w = (w[0] | frozenset([("afvar", how, norm(e.kid(0)), r.pos)]), w[1], w[2])
+                    # x = y, x = (y = ...): two names for one pointer
+                    lhs, rn = norm(e.kid(0)), norm(e.kid(1))
+                    while rn[0] == "=" and len(rn) == 3:
+                        rn = rn[1]
+                    if lhs[0] == "v" and rn[0] == "v" and lhs != rn and (f.unit.types.get(e.kid(0).ty) or {}).get("kind") == "ptr":
+                        w = (w[0] | frozenset([("alias", lhs, rn, 0)]), w[1], w[2])
                 return w
             if e.cls == "CallExpr" and e.callee:
                 c = e.callee
@@ -440,7 +460,8 @@ class DoubleFree:
                         n = norm(a)
                         if not trackable(n) or n[0] == "c":
                             continue
-                        ent = ent | frozenset([("freed", n, e.pos)])
+                        for q in aliases(ent, n):
+                            ent = ent | frozenset([("freed", q, e.pos)])
                     return (ent, facts, af)
                 g = prog.resolve(f, c)
                 if g is not None:
@@ -514,6 +535,18 @@ class DoubleFree:
 
         s = Solver(f, frozenset([(frozenset(), frozenset(), False)]), transfer, refine, join).run()
 
+        uses = []
+        self.uses = uses
+
+        def freed_here(st, n, pos):
+            for ent, _, af in st:
+                if self.alloc_only and not af:
+                    continue
+                for x in ent:
+                    if x[0] == "freed" and x[1] == n and x[2] != pos:
+                        return f.elem(x[2])
+            return None
+
         def visit(e, st):
             if e.cls == "CallExpr" and e.callee in rel:
                 nfree[0] += 1
@@ -521,12 +554,30 @@ class DoubleFree:
                     if a is None:
                         continue
                     n = norm(a)
-                    for ent, _, af in st:
-                        if self.alloc_only and not af:
-                            continue
-                        for x in ent:
-                            if x[0] == "freed" and x[1] == n and x[2] != e.pos:
-                                found.append((e, n, f.elem(x[2])))
+                    first = freed_here(st, n, e.pos)
+                    if first is not None:
+                        found.append((e, n, first))
+                return
+            # a released pointer handed to a call, dereferenced, or returned
+            cands = []
+            if e.cls == "CallExpr" and e.callee:
+                for a in e.args:
+                    if a is not None and norm(a)[0] != "&":          # &p hands over the variable, not the released pointer
+                        cands += [t for t in subterms(norm(a)) if isinstance(t, tuple) and t and t[0] == "v"]
+            elif e.cls == "MemberExpr" and e.op == "->":
+                cands.append(norm(e.kid(0)))
+            elif e.cls == "UnaryOperator" and e.op == "*":
+                cands.append(norm(e.kid(0)))
+            elif e.cls == "ArraySubscriptExpr":
+                cands.append(norm(e.kid(0)))
+            elif e.cls == "ReturnStmt" and e.kids and e.kid(0) is not None:
+                cands.append(norm(e.kid(0)))
+            for n in cands:
+                if n[0] != "v":
+                    continue
+                first = freed_here(st, n, None)
+                if first is not None:
+                    uses.append((e, n, first))
         s.visit(visit)
         return nfree[0], found
 
